@@ -6,7 +6,7 @@ from fractions import Fraction
 from sa import AnalysisError
 from sa.kinds import (key, utext, call_name, recv_text, calls_in, node_calls, canon_compare, oriented)
 from sa.cfg import walk_calls, walk_nodes
-from sa.astutil import canon_text as ct
+from sa.astutil import canon_text as ct, gp
 
 EXPLANATION = (
     "Narrow decision of C17: (R1) the ladder constants are compared with Betfair's published increment table "
@@ -137,50 +137,46 @@ def run(ctx, rep):
         rep.check(default_err, "R2", key(f, None, "an unknown order type is refused"), f)
 
     def guards_of(fname, specs):
-        """specs: [(description, predicate(cmp tuple or text))]; each must exist and its TRUE edge must refuse"""
+        """specs: [(description, guard as source text)]; the guard must exist and the edge on which it holds must
+        lead to a refusal (through further conjuncts only)"""
         f = prog.own_method("OrderValidation", fname)
         cfgf = ctx.cfg(f)
         conds = [n for n in cfgf.live_nodes() if n.kind == "cond"]
-        for desc, pred in specs:
-            hit = [n for n in conds if pred(n.exprs[0])]
+        for desc, src in specs:
+            text, pol = gp(src)
+            hit = [n for n in conds if utext(n.exprs[0]) == text]
             good = len(hit) >= 1
             for n in hit:
-                t = [mm for l, mm in n.succ if l == "T"][0]
-                r = cfgf.reachable(t, [mm for l, mm in n.succ if l == "F"])
-                # the refusal must be reachable from the true edge through conjuncts only
-                good = good and any(call_name(c) == "_on_error" for x in r for c in calls_in(cfgf.nodes[x]))
+                on, off = ("T", "F") if pol else ("F", "T")
+                t = [mm for l, mm in n.succ if l == on][0]
+                errs = [x.id for x in cfgf.live_nodes() if any(call_name(c) == "_on_error" for c in calls_in(x))]
+                # once the guard holds the refusal is inevitable
+                good = good and (t in errs or cfgf.all_paths_pass(t, cfgf.exit, errs)) and bool(errs)
             rep.check(good, "R2", key(f, None, "guard: " + desc), f, hit[0].exprs[0] if hit else None,
                       "guard missing, mis-oriented or not refusing" if not good else "")
 
-    def cmp_is(left, op, right):
-        def p(e):
-            c = canon_compare(e)
-            o = oriented(c, left) if c else None
-            return o is not None and o[1] == op and o[2] == right
-        return p
-
-    guards_of("_validate_size", [("size is None", cmp_is("size", "is", "None")), ("size <= 0", cmp_is("size", "<=", "0")),
-                                 ("more than two decimals", cmp_is("size", "!=", "round(size, 2)"))])
+    guards_of("_validate_size", [("size is None", "size is None"), ("size <= 0", "size <= 0"),
+                                 ("more than two decimals", "size != round(size, 2)")])
     guards_of("_validate_betfair_liability", [
-        ("liability is None", cmp_is("order.order_type.liability", "is", "None")),
-        ("liability <= 0", cmp_is("order.order_type.liability", "<=", "0")),
-        ("more than two decimals", cmp_is("order.order_type.liability", "!=", "round(order.order_type.liability, 2)"))])
+        ("liability is None", "order.order_type.liability is None"),
+        ("liability <= 0", "order.order_type.liability <= 0"),
+        ("more than two decimals", "order.order_type.liability != round(order.order_type.liability, 2)")])
     guards_of("_validate_betfair_price", [
-        ("price is None", cmp_is("order.order_type.price", "is", "None")),
-        ("CLASSIC price not on the ladder", lambda e: utext(e) == "utils.as_dec(order.order_type.price) not in utils.PRICES"),
-        ("FINEST price not on the ladder", lambda e: utext(e) == "utils.as_dec(order.order_type.price) not in utils.FINEST_PRICES"),
-        ("LINE price not in the market's range", lambda e: utext(e) == "utils.as_dec(order.order_type.price) not in prices")])
+        ("price is None", "order.order_type.price is None"),
+        ("CLASSIC price not on the ladder", "utils.as_dec(order.order_type.price) not in utils.PRICES"),
+        ("FINEST price not on the ladder", "utils.as_dec(order.order_type.price) not in utils.FINEST_PRICES"),
+        ("LINE price not in the market's range", "utils.as_dec(order.order_type.price) not in prices")])
     guards_of("_validate_betdaq_price", [
-        ("price is None", cmp_is("order.order_type.price", "is", "None")),
-        ("price not on the Betdaq ladder", lambda e: utext(e) == "utils.as_dec(order.order_type.price) not in utils.BETDAQ_PRICES")])
+        ("price is None", "order.order_type.price is None"),
+        ("price not on the Betdaq ladder", "utils.as_dec(order.order_type.price) not in utils.BETDAQ_PRICES")])
     # ladder chosen by the order's price ladder definition
     f = prog.own_method("OrderValidation", "_validate_betfair_price")
     cfgf = ctx.cfg(f)
     lad = {}
     for n in cfgf.live_nodes():
-        if n.kind == "cond" and " not in " in utext(n.exprs[0]):
+        if n.kind == "cond" and utext(n.exprs[0]).startswith("utils.as_dec(order.order_type.price) in "):
             gs = [t for t, pol in [(utext(g.exprs[0]), pol) for g, pol in cfgf.guards(n.id)] if pol and "price_ladder_definition" in t]
-            lad[utext(n.exprs[0]).split(" not in ")[1]] = gs[0].split("== ")[1] if gs else None
+            lad[utext(n.exprs[0]).split(" in ")[1]] = gs[0].split("== ")[1] if gs else None
     rep.check(lad == {"utils.PRICES": "'CLASSIC'", "utils.FINEST_PRICES": "'FINEST'", "prices": "'LINE_RANGE'"}, "R2",
               key(f, None, "each ladder definition is checked against its own ladder"), f, None, str(lad))
     lp = [s for s in walk_nodes(f.node.body, ast.Assign) if utext(s.targets[0]) == "prices"]
